@@ -156,10 +156,18 @@ func (w *Walker) loopOne(s ast.Stmt, rng *ast.RangeStmt, fr *ast.ForStmt, body *
 	}
 	// locals written by what the body calls inline (a closure incrementing a captured counter, a helper walked with the
 	// caller's environment): found in the probe's results, not in the body's own syntax
+	staleOf := map[*types.Var]string{}
 	dyn := func(ss []*State) {
 		for _, p := range ss {
 			for v, t := range st.Env {
 				if pt, ok := p.Env[v]; ok && pt != t && (pt == nil || t == nil || pt.S != t.S) {
+					if pt != nil && pt.K == KLocal && strings.HasPrefix(pt.Name, "stale:") {
+						// not assigned: the value went stale because the body wrote what it was derived from
+						if i := strings.LastIndex(pt.Name, ":"); i > 0 {
+							staleOf[v] = pt.Name[:i+1]
+						}
+						continue
+					}
 					if _, have := assigned[v]; !have {
 						assigned[v] = nil
 					}
@@ -189,6 +197,11 @@ func (w *Walker) loopOne(s ast.Stmt, rng *ast.RangeStmt, fr *ast.ForStmt, body *
 	for v := range assigned {
 		initial[v] = st.Env[v]
 		h.Env[v] = fresh("loopvar_" + v.Name() + "_")
+	}
+	for v, pre := range staleOf {
+		if _, isAssigned := assigned[v]; !isAssigned {
+			h.Env[v] = fresh(pre) // stale from the first iteration on (and after the loop, if it ran)
+		}
 	}
 	after := h.clone()
 	// 3. body walk with recording
@@ -673,7 +686,18 @@ func (w *Walker) extResult(id string, f *types.Func, recv *Term, args []*Term, n
 		t := mkTerm(KCall, strings.TrimPrefix(id, "ext:"), append([]*Term{recv}, args...)...)
 		return append([]*Term{t}, manyFresh(nres-1)...)
 	}
-	return taggedFresh(id, nres)
+	ts := taggedFresh(id, nres)
+	if strings.HasPrefix(id, "if:RecoveryMessage.Get") && len(ts) > 0 {
+		// what a recovery getter rebuilds depends on what it was given (the primary index the request is stamped
+		// with): the result is as old as its arguments
+		for _, a := range args {
+			if a != nil {
+				ts[0].Reads = append(ts[0].Reads, a.Reads...)
+			}
+		}
+		ts[0].Reads = uniq(ts[0].Reads)
+	}
+	return ts
 }
 
 func (w *Walker) cbResult(id string, call *ast.CallExpr, args []*Term, nres int) []*Term {
